@@ -73,7 +73,7 @@ theorem sort_uses_eval (orc : Oracles) (sink : SinkCfg) (n : Nat) (e : Expr) (de
     (hv : eval orc evalFuel e ctx = .ok (some k)) :
     process orc sink n (.sort e desc :: cs) (.sort data none :: sts) w ctx =
       .ok (⟨.sort (bucketInsert k ctx data) none :: sts, w⟩, .cont) := by
-  simp [process, evalE, liftR, hv, bind, Except.bind]
+  simp [process, evalE, liftR, hv, bind, Except.bind, sortStep]
 
 /-- a macro is its body: `@m` where `m` is bound to `e` has the value of `e` -/
 theorem macro_uses_eval (orc : Oracles) (fuel : Nat) (c : Ctx) (n : Str) (e : Expr)
